@@ -92,6 +92,56 @@ def xform(work):
     return results
 
 
+def gens(work):
+    ops = [["enter", "o1"], ["enter", "o2"], ["new", "g1"], ["next", "g1"], ["callg", 5], ["close", "g1"], ["exit", "o2"], ["exit", "o1"]]
+    traces = L.run_histories([{"id": 1, "mode": "overlay", "ops": ops}], work, driver="harness.drivers.gen_driver", par=1)
+    results = []
+    fails, _ = L.validate(traces, work, spec="TraceGen", par=1)
+    known = all(r[0]["mech"] for tag, r in fails.get(1, []) if tag == "FAIL")
+    results.append(("TraceGen explains a real generator history (A level or token model)", known))
+    t = copy.deepcopy(traces)
+    for st in t[0]["steps"][3:]:
+        st["recv"]["o2"] = st["recv"]["o2"][1:]            # the event of the g call inside the generator, lost
+    fails, _ = L.validate(t, work, spec="TraceGen", par=1)
+    results.append(("TraceGen rejects a lost event as unexplained", any(not r[0]["mech"] for tag, r in fails.get(1, []) if tag == "FAIL")))
+    return results
+
+
+def refs(work):
+    ops = [["act", "q1", "name"], ["resolve"], ["nact", "n1", "top"], ["resolve"], ["ndeact", "n1"], ["deact", "q1"], ["resolve"]]
+    traces = L.run_histories([{"id": 1, "place": "made", "ops": ops}], work, driver="harness.drivers.ref_driver", par=1)
+    results = []
+    fails, _ = L.validate(traces, work, spec="TraceRefs", par=1)
+    explained = all(str(r[0]["why"]).startswith("mech:") for tag, r in fails.get(1, []) if tag == "FAIL")
+    results.append(("TraceRefs explains a real history (A level or registry mechanism)", explained))
+    t = copy.deepcopy(traces)
+    t[0]["steps"][3]["all"]["top"] = "way"                 # a reference answering with another function
+    fails, _ = L.validate(t, work, spec="TraceRefs", par=1)
+    results.append(("TraceRefs rejects a wrong answer the mechanism does not predict",
+                    any(r[0]["clause"] == "Resolve" and r[0]["why"] == "other" for tag, r in fails.get(1, []) if tag == "FAIL")))
+    return results
+
+
+def xmech(work):
+    from . import xformcheck as XC
+    st = {"s": "assign", "e": {"k": 1, "e": "ls"}, "targets": [{"t": "tuple", "elts": [{"t": "name", "v": "a"}, {"t": "attr", "v": "o", "a": "p"}]}]}
+    progs = XC.programs([st])
+    opts = {"maxiter": 1, "maxraise": 0, "kinds": ["tuple"], "maxpaths": 1, "seed": 0, "variants": ["tooled", "singles"], "gen_drive": False,
+            "with_prog": True}
+    traces = PC.run_jobs(progs, opts, work, par=1)
+    results = []
+    fails, _ = PC.validate(traces, work, spec="TraceXformMech", par=1)
+    results.append(("TraceXformMech: the real rewrite does what Xform.tla says", not fails))
+    t = copy.deepcopy(traces)
+    log = t[0]["runs"][0]["log"]
+    i = next(k for k, e in enumerate(log) if e[0] == "siter")
+    log[i] = ["sgetitem", log[i][1], "0"]                  # as if the value had been indexed instead of iterated
+    fails, _ = PC.validate(t, work, spec="TraceXformMech", par=1)
+    results.append(("TraceXformMech rejects an action sequence the model does not predict",
+                    any(r[0]["clause"] == "Log" and not r[0]["mech"] for tag, r in fails.get(t[0]["id"], []) if tag == "FAIL")))
+    return results
+
+
 def main():
     work = core.scratch("selftest-")
     results = []
@@ -99,6 +149,9 @@ def main():
         results += ptera_world(work)
         results += life(work)
         results += xform(work)
+        results += gens(work)
+        results += refs(work)
+        results += xmech(work)
     finally:
         core.cleanup()
     ok = True
